@@ -285,19 +285,27 @@ def run(run: Run, pkg: Package) -> None:
     fi = it.fi
     fq = short(fi.qual)
     p = fi.params
-    if len(p) != 3:
-        raise AnalysisError("remove_pbc: expected (RIJ, hmatrix, ppp)")
-    R, H, M = (("sym", x) for x in p)
+    dflts = fi.defaults()
+    extras = [x for x in p[3:]]
+    if len(p) < 3 or any(x not in dflts for x in extras):
+        raise AnalysisError("remove_pbc: expected (RIJ, hmatrix, ppp[, options with defaults])")
+    R, H, M = (("sym", x) for x in p[:3])
+    if extras:
+        # options added later: the documented three-argument call is analysed with every option at its default; an option that
+        # some caller sets is analysed once more below with the option present
+        import ast as _ast
+        bind = {}
+        for x in extras:
+            try:
+                bind[x] = C(_ast.literal_eval(dflts[x]))
+            except Exception:  # noqa
+                raise AnalysisError(f"remove_pbc: default of option {x} is not a literal")
+        it_opt = it
+        it = interp(pkg, FN, bind=bind)
     if not it.returns or it.falls_through:
         raise AnalysisError("remove_pbc: expected every path to return a value")
     # several returns (fast paths): folded into one conditional value, last return as the default
-    ret = it.returns[-1].data["value"]
-    for r_ in reversed(it.returns[:-1]):
-        conds = [c_ if pol else ("un", "not", c_) for c_, pol in r_.guards]
-        if not conds:
-            ret = r_.data["value"]
-            continue
-        ret = ("phi", conds[0] if len(conds) == 1 else ("bool", "and", tuple(conds)), r_.data["value"], ret)
+    ret = fold_returns(it)
     loc = loc_of(it, it.returns[0])
     # ---- the result is a function of the three arguments alone: no module-level state keyed on object identity
     gl = sorted({x[1][1] for x in walk(ret) if x[0] == "sub" and x[1][0] == "global"})
@@ -362,6 +370,8 @@ def run(run: Run, pkg: Package) -> None:
         run.ob("R-ALG", fq, "default-mask", True if okd else None, "default mask is fully periodic in 3D", txt, witness=None if okd else f"default {txt}", loc=fi.loc())
     check_call_sites(run, pkg)
     run.minimum("R-PBC", 27 * 3)
+    if extras:
+        check_options(run, pkg, it_opt, fq, R, H, M, extras, loc)
     if run.tier == "thorough":
         # deeper: re-evaluate the extracted term on a grid of cells and masks against the reference (witness search only)
         wit = numeric_witness(ret, R, H, M, trials=400)
@@ -369,15 +379,82 @@ def run(run: Run, pkg: Package) -> None:
                "no difference" if wit is None else wit, witness=wit, loc=loc, sound=True)
 
 
+def fold_returns(it) -> Term:
+    """several returns (fast paths) folded into one conditional value, last return as the default"""
+    ret = it.returns[-1].data["value"]
+    for r_ in reversed(it.returns[:-1]):
+        conds = [c_ if pol else ("un", "not", c_) for c_, pol in r_.guards]
+        if not conds:
+            ret = r_.data["value"]
+            continue
+        ret = ("phi", conds[0] if len(conds) == 1 else ("bool", "and", tuple(conds)), r_.data["value"], ret)
+    return ret
+
+
+def check_options(run, pkg, it_opt, fq, R, H, M, extras, loc):
+    """An option of remove_pbc that some caller sets: the extracted term is evaluated with the option bound to what callers
+    pass (the box lengths of the same cell) on the structured grid of cells; a differing cell is the witness."""
+    target = pkg.func(FN).qual
+    ret = fold_returns(it_opt)
+    for x in extras:
+        users = []
+        for fi in pkg.all_functions():
+            it = interp(pkg, fi.qual)
+            for ev in it.events:
+                if ev.kind == "call" and ev.data["call"][1] == target:
+                    v = dict(ev.data["call"][3]).get(x)
+                    if v is not None and v != NONE:
+                        users.append((short(fi.qual), v, loc_of(it, ev)))
+        if not users:
+            run.ob("R-ALG", fq, f"option:{x}", None, f"option {x} is not used by any caller (its non-default arm is not analysed)", "no call site passes it", loc=loc)
+            continue
+        lengthy = [u for u in users if any(y[0] == "attr" and y[2] == "boxlength" for y in walk(u[1]))]
+        if not lengthy:
+            run.ob("R-ALG", fq, f"option:{x}", None, f"option {x}: value passed by callers recognised", show(users[0][1])[:80], loc=users[0][2])
+            continue
+        wit = numeric_witness(ret, R, H, M, lengths=("sym", x))
+        run.ob("R-ALG", fq, f"option:{x}", False if wit else None, f"with {x} = the box lengths of the same cell (as {lengthy[0][0]} passes it) the result is still R - (mask (.) nearest(R H^-1)) H",
+               "differs on a concrete cell" if wit else "no differing cell found on the grid (not a proof)", witness=(f"{x} = diag(H); " + wit) if wit else None, loc=lengthy[0][2], sound=True)
+
+
+def structured_cases():
+    """cells x displacement sets x masks chosen to reach fast paths and early exits: orthogonal, weakly and strongly tilted cells of
+    either tilt sign; displacement sets that are all short (every |component| < L/2), mixed, and several box lengths long."""
+    out = []
+    for d in (2, 3):
+        L = np.array([3.0, 4.0, 5.0][:d])
+        tilt_sets = [np.zeros(3), np.array([0.01, 0.008, 0.012]), np.array([1.4, 0.0, 0.0]), np.array([-1.3, 0.9, -1.7]), np.array([1.2, 1.1, 1.6]), np.array([0.0, 0.0, 1.9])]
+        for tl in tilt_sets:
+            Hm = np.diag(L).astype(float)
+            Hm[1, 0] = tl[0]
+            if d == 3:
+                Hm[2, 0], Hm[2, 1] = tl[1], tl[2]
+            short = np.array([[0.49, 0.47, 0.45], [-0.48, 0.46, -0.44], [0.3, -0.49, 0.48], [-0.45, -0.45, 0.1]])[:, :d] * L
+            mixed = np.array([[0.7, -0.2, 0.1], [-1.2, 0.6, 0.55], [0.2, 0.9, -0.8], [2.2, -1.4, 0.3]])[:, :d] * L
+            far = np.array([[1.7, 0.1, -0.2], [-2.6, 0.3, 0.1], [0.2, 1.8, 2.7], [-1.6, -2.4, 1.9]])[:, :d] * L
+            for Rm in (short, mixed, far):
+                for mk in range(2 ** d):
+                    Mm = np.array([(mk >> a) & 1 for a in range(d)])
+                    out.append((Hm, Rm.copy(), Mm))
+    # all-periodic masks first (the common case), then the rest
+    out.sort(key=lambda c: -int(c[2].sum()))
+    return out
+
+
 def numeric_witness(ret, R, H, M, trials=40, lengths=None):
     """`lengths`: a term standing for the box-length vector of the same cell (diag of the LAMMPS h-matrix)."""
     rng = np.random.default_rng(12345)
-    for t in range(trials):
-        d = 2 + (t % 2)
-        Hm = np.tril(rng.uniform(-1.5, 1.5, (d, d)))
-        Hm[np.diag_indices(d)] = rng.uniform(2.0, 4.0, d)
-        Rm = rng.uniform(-6, 6, (3, d))
-        Mm = rng.integers(0, 2, d)
+    cases = structured_cases()
+    for t in range(trials + len(cases)):
+        if t < len(cases):
+            Hm, Rm, Mm = cases[t]
+            d = Hm.shape[0]
+        else:
+            d = 2 + (t % 2)
+            Hm = np.tril(rng.uniform(-1.5, 1.5, (d, d)))
+            Hm[np.diag_indices(d)] = rng.uniform(2.0, 4.0, d)
+            Rm = rng.uniform(-6, 6, (3, d))
+            Mm = rng.integers(0, 2, d)
         try:
             env = {R: Rm, H: Hm, M: Mm}
             if lengths is not None:
